@@ -233,5 +233,65 @@ theorem cleanPath_idem' (p : Bytes) : cleanPath (cleanPath p) = cleanPath p := b
           normStack_segs_joinSegs]
         rw [if_neg he]
 
+/-! ### what `walk` returns exists -/
+
+theorem kindAt_nil (t : Tree) : kindAt t [] = some .dir := rfl
+
+/-- every ancestor of the current directory exists -/
+def Anc (t : Tree) (cur : List Bytes) : Prop := ∀ n, kindAt t (cur.drop n).reverse ≠ none
+
+theorem Anc.nil (t : Tree) : Anc t [] := by
+  intro n; simp [kindAt_nil]
+
+theorem Anc.drop {t : Tree} {cur : List Bytes} (h : Anc t cur) (k : Nat) : Anc t (cur.drop k) := by
+  intro n; rw [List.drop_drop]; exact h _
+
+theorem Anc.push {t : Tree} {cur : List Bytes} (h : Anc t cur) {s : Bytes} {k : Kind}
+    (hk : kindAt t (s :: cur).reverse = some k) : Anc t (s :: cur) := by
+  intro n
+  cases n with
+  | zero => rw [List.drop_zero, hk]; simp
+  | succ n => rw [List.drop_succ_cons]; exact h n
+
+theorem walk_exists (t : Tree) (cur ss loc : List Bytes) (h : walk t cur ss = some loc)
+    (ha : Anc t cur) : kindAt t loc ≠ none := by
+  induction ss generalizing cur with
+  | nil =>
+    simp only [walk, Option.some.injEq] at h
+    rw [← h]; exact ha 0
+  | cons s ss ih =>
+    rcases seg_cases s with hs | rfl | hs
+    · rw [walk_skip t hs] at h; exact ih _ h ha
+    · rw [walk_dd] at h; exact ih _ h (ha.drop 1)
+    · rw [walk_name t hs] at h
+      split at h
+      · rename_i hk; exact ih _ h (ha.push hk)
+      · rename_i hk
+        split at h
+        · simp only [Option.some.injEq] at h
+          rw [← h, hk]; simp
+        · cases h
+      · cases h
+
+/-- whatever is served exists in the tree -/
+theorem served_exists (t : Tree) (root path : Bytes) {loc : List Bytes}
+    (h : served t root path = some loc) : kindAt t loc ≠ none :=
+  walk_exists t [] _ loc ((served_some_iff t root path loc).1 h).1 (Anc.nil t)
+
+/-- an existing location is the root of the file system or an entry of the tree -/
+theorem kindAt_mem {t : Tree} {loc : List Bytes} {k : Kind} (h : kindAt t loc = some k) :
+    ∃ e ∈ ([], Kind.dir) :: t, e.1 = loc ∧ e.2 = k := by
+  unfold kindAt at h
+  split at h
+  · rename_i he
+    have : loc = [] := List.isEmpty_iff.1 he
+    subst this
+    simp only [Option.some.injEq] at h
+    exact ⟨([], .dir), by simp, rfl, h⟩
+  · simp only [Option.map_eq_some_iff] at h
+    obtain ⟨e, he, hk⟩ := h
+    refine ⟨e, by simp [List.mem_of_find?_eq_some he], ?_, hk⟩
+    simpa using List.find?_some he
+
 end Fs
 end Qhttp
